@@ -272,6 +272,14 @@ def search(acc: Acc, tier, shard, nshards):
         pool = [sc for sc in allc if sc[1][2] == kind] or allc
         deep = [sc for sc in pool if len(sc[0][2]) >= 1]
         site, cand = ch.choice(deep if (deep and ch.chance(3, 4)) else pool)
+        if cand[2] == "repeated_item":
+            # every occurrence of a repeatable keyword has a value and a position of its own (also when two occurrences
+            # are written alike): without that the message for one occurrence cannot point at it
+            o_ = faults.find(d, site[2])
+            vals, pos = o_.get(cand[1]), o_.get("__position__", {}).get(cand[1])
+            if not isinstance(vals, list) or len(vals) != len(cand[0]) or not isinstance(pos, list) or len(pos) != len(cand[0]):
+                return [Discrepancy("repeated_keyword_occurrences", f"{cand[1].upper()} is written {len(cand[0])} times but holds {vals!r:.80} with positions {pos!r:.80}",
+                                    {"doc": doc, "text": r.text, "fault": {"kind": "repeated_item", "dpath": list(site[2]), "key": cand[1]}})]
         f = faults.apply_fault(ch, d, site, cand)
         if f is None:
             acc.excl("fault_not_invalid_or_inapplicable")
